@@ -377,7 +377,7 @@ def _w_scene(task):
             worst = max((float(np.abs(np.asarray(res.graph[n][0]) - flat0[n]).max() / max(1.0, np.abs(flat0[n]).max())), n) for n in flat0) if flat0 else (0.0, None)
             if worst[0] > 1e-12:
                 small = any(0 < np.abs(flat0[n] - np.eye(4)).max() < 1e-4 for n in flat0)
-                t.violation(f"scene round trip changes a node's transform [{ft}; {'a node transform close to the identity' if small else feature}]", case, {"node": worst[1], "max_abs_rel": worst[0]})
+                t.violation(f"scene round trip changes the transform of a node [{ft}; {'a node transform close to the identity' if small else feature}]", case, {"node": worst[1], "max_abs_rel": worst[0]})
         if got.shape != want.shape:
             t.violation(f"scene round trip changes the number of placed triangles [{ft}; {feature}]", case, {"got": len(got), "want": len(want)})
         elif canon_tris(got, q) != canon_tris(want, q):
